@@ -33,7 +33,8 @@ VB_FUNCS = ["Viewbox.viewbox_transform", "Length.str"]
 
 
 @family("C11/Viewbox.viewbox_transform/table",
-        [(a, m) for a in ALIGNS for m in MOS if m != "absent" or a == "xMidYMid"], funcs=VB_FUNCS + ["Matrix.parse"])
+        [(a, m) for a in ALIGNS for m in MOS if m != "absent" or a == "xMidYMid"], funcs=VB_FUNCS + ["Matrix.parse"],
+        props=["C11", "C03"])
 def _(E, case):
     align, mos = case
     ex, ey, vx, vy = E.reals("ex ey vx vy", ORG)
